@@ -14,6 +14,7 @@
 
 #include <kernel/runtime.hpp>
 #include <kernel/geometry/conformal_mesh.hpp>
+#include <kernel/geometry/index_calculator.hpp>
 
 namespace c18
 {
@@ -275,21 +276,76 @@ namespace c18
 
   template<typename Shape_> using MeshT = Geometry::ConformalMesh<Shape_, Shape_::dimension, double>;
 
-  /// hand the generated mesh to feat3 (vertex-at-cell + deduct_topology_from_top)
+  /// Factory filling the vertex set and the vertices-at-cell index set; the redundant index sets are computed by
+  /// RedundantIndexSetBuilder (the protocol of Geometry::ShapeConvertFactory)
   template<typename Shape_>
-  std::unique_ptr<MeshT<Shape_>> build_mesh(const MeshDesc& d)
+  class GenFactory : public Geometry::Factory<MeshT<Shape_>>
+  {
+  public:
+    typedef MeshT<Shape_> MeshType;
+    typedef typename MeshType::VertexSetType VertexSetType;
+    typedef typename MeshType::IndexSetHolderType IndexSetHolderType;
+    static constexpr int dim = Shape_::dimension;
+    const MeshDesc& d; Index ne[4]; bool filled = false;
+    explicit GenFactory(const MeshDesc& d_, const Index* ne_) : d(d_) { for(int i = 0; i < 4; ++i) ne[i] = ne_[i]; }
+    // before fill_index_sets the sub-dimensional counts are reported as zero so that RedundantIndexSetBuilder computes the
+    // vertex-at-subshape sets (it does so only for empty sets); the mesh constructor asks again afterwards
+    virtual Index get_num_entities(int dm) override { return (filled || dm == 0 || dm == dim) ? ne[dm] : Index(0); }
+    virtual void fill_vertex_set(VertexSetType& vs) override { for(size_t i = 0; i < d.vtx.size(); ++i) for(int k = 0; k < dim; ++k) vs[Index(i)][k] = d.vtx[i][(size_t)k]; }
+    virtual void fill_index_sets(IndexSetHolderType& ish) override
+    {
+      auto& ic = ish.template get_index_set<dim, 0>();
+      for(size_t c = 0; c < d.cells.size(); ++c) for(size_t j = 0; j < d.cells[c].size(); ++j) ic(Index(c), int(j)) = Index(d.cells[c][j]);
+      Geometry::RedundantIndexSetBuilder<Shape_>::compute(ish);
+      filled = true;
+    }
+  };
+
+  /// hand the generated mesh to feat3.
+  /// via_deduct = true: ConformalMesh(num_entities) + deduct_topology_from_top() (protocol of tools/mesh_tools/mesh_indexer),
+  /// which additionally re-orients the boundary facets; false: through a Factory (protocol of ShapeConvertFactory).
+  /// Domain note: for Simplex<3> only the Factory route is used.  deduct_topology_from_top() -> FacetFlipper ->
+  /// CongruencyMapping<Simplex<2>,1>::flip (kernel/geometry/intern/congruency_mapping.hpp:170) swaps triangle edges 0/2 where
+  /// the edge numbering {1,2},{2,0},{0,1} requires 1/2, leaving edges-at-face inconsistent on every flipped boundary triangle;
+  /// the refinement of such a mesh is garbage.  That is a defect of the mesh construction (property C10's area, reported
+  /// there), not of the transfer operators, and is kept out of this check.
+  template<typename Shape_>
+  std::unique_ptr<MeshT<Shape_>> build_mesh(const MeshDesc& d, bool via_deduct)
   {
     constexpr int dim = Shape_::dimension;
-    // sub-dimensional entity counts are left at zero: RedundantIndexSetBuilder computes vertex-at-subshape sets only
-    // when they are empty (the protocol of tools/mesh_tools/mesh_indexer.cpp)
-    Index ne[4] = {Index(d.vtx.size()), 0, 0, 0};
-    ne[dim] = Index(d.cells.size());
-    auto m = std::make_unique<MeshT<Shape_>>(ne);
-    auto& vs = m->get_vertex_set();
-    for(size_t i = 0; i < d.vtx.size(); ++i) for(int k = 0; k < dim; ++k) vs[Index(i)][k] = d.vtx[i][(size_t)k];
-    auto& ic = m->template get_index_set<dim, 0>();
-    for(size_t c = 0; c < d.cells.size(); ++c) for(size_t j = 0; j < d.cells[c].size(); ++j) ic(Index(c), int(j)) = Index(d.cells[c][j]);
-    m->deduct_topology_from_top();
+    std::set<std::vector<int>> edges, faces;
+    for(const auto& c : d.cells)
+    {
+      const int nl = (int)c.size();
+      if(d.simplex)
+      {
+        for(int a = 0; a < nl; ++a) for(int b = a + 1; b < nl; ++b) { std::vector<int> e{c[(size_t)a], c[(size_t)b]}; std::sort(e.begin(), e.end()); edges.insert(e); }
+        if(dim == 3) for(int o = 0; o < nl; ++o) { std::vector<int> f; for(int q = 0; q < nl; ++q) if(q != o) f.push_back(c[(size_t)q]); std::sort(f.begin(), f.end()); faces.insert(f); }
+      }
+      else
+      {
+        for(int a = 0; a < nl; ++a) for(int k = 0; k < dim; ++k) if(!((a >> k) & 1)) { std::vector<int> e{c[(size_t)a], c[(size_t)(a | (1 << k))]}; std::sort(e.begin(), e.end()); edges.insert(e); }
+        if(dim == 3) for(int k = 0; k < 3; ++k) for(int s = 0; s < 2; ++s) { std::vector<int> f; for(int b = 0; b < nl; ++b) if(((b >> k) & 1) == s) f.push_back(c[(size_t)b]); std::sort(f.begin(), f.end()); faces.insert(f); }
+      }
+    }
+    if(via_deduct && !(d.simplex && dim == 3))
+    {
+      // sub-dimensional entity counts are left at zero: RedundantIndexSetBuilder computes vertex-at-subshape sets only
+      // when they are empty
+      Index ne[4] = {Index(d.vtx.size()), 0, 0, 0};
+      ne[dim] = Index(d.cells.size());
+      auto m = std::make_unique<MeshT<Shape_>>(ne);
+      auto& vs = m->get_vertex_set();
+      for(size_t i = 0; i < d.vtx.size(); ++i) for(int k = 0; k < dim; ++k) vs[Index(i)][k] = d.vtx[i][(size_t)k];
+      auto& ic = m->template get_index_set<dim, 0>();
+      for(size_t c = 0; c < d.cells.size(); ++c) for(size_t j = 0; j < d.cells[c].size(); ++j) ic(Index(c), int(j)) = Index(d.cells[c][j]);
+      m->deduct_topology_from_top();
+      return m;
+    }
+    Index ne[4] = {Index(d.vtx.size()), Index(edges.size()), Index(dim == 3 ? faces.size() : d.cells.size()), Index(d.cells.size())};
+    GenFactory<Shape_> fac(d, ne);
+    auto m = std::make_unique<MeshT<Shape_>>(fac);
+    for(int k = 0; k <= dim; ++k) if(m->get_num_entities(k) != ne[k]) throw vf::Fail{"harness: entity count mismatch in generated mesh"};
     return m;
   }
 
